@@ -2,10 +2,32 @@
 scheduling point. All schedules of the thread segments are explored with the DATA symbolic; each complete schedule yields a
 final state whose obligations the solver decides (the schedule index is tied to a free variable so that "the solver picks the
 interleaving"). Sequential consistency; relaxed-memory reorderings are outside the claim."""
+import z3
 from . import llsym
 
 
-def interleavings(ex, st0, calls, max_schedules=5000):
+def _key(v, ren):
+    if isinstance(v, llsym.Ptr): return ('p', ren.get(v.obj, v.obj), v.off if isinstance(v.off, int) else v.off.sexpr())
+    if isinstance(v, llsym.IntPtr): return ('ip', v.addr.sexpr() if z3.is_expr(v.addr) else v.addr)
+    if isinstance(v, (list, tuple)): return tuple(_key(x, ren) for x in v)
+    if z3.is_expr(v): return v.sexpr()
+    return repr(v)
+
+
+def state_key(st, stks, rets, done):
+    """global state = every thread's frames (function, block, instruction, registers), every memory cell, path condition, results so far.
+    Two schedules that reach the same global state have the same futures (partial-order reduction by visited-state pruning).
+    Stack locals get their object ids in allocation order, which depends on the schedule: they are renamed to (thread, frame, index)."""
+    ren = {}
+    for t, s in enumerate(stks):
+        for fi, f in enumerate(s or []):
+            for ai, oid in enumerate(f.allocas): ren[oid] = ('a', t, fi, ai)
+    ths = tuple(None if not s else tuple((f.fn.name, f.blk, f.idx, tuple(sorted((r, _key(v, ren)) for r, v in f.regs.items()))) for f in s) for s in stks)
+    mem = tuple(sorted(((repr(ren.get(oid, oid)), o.size if isinstance(o.size, int) else _key(o.size, ren), o.freed, tuple(sorted((off, _key(tuple(c), ren)) for off, c in o.cells.items()))) for oid, o in st.objs.items()), key=repr))
+    return (ths, mem, tuple(sorted(c.sexpr() for c in st.pc)), _key(rets, ren), tuple(done), _key(st.log, ren))
+
+
+def interleavings(ex, st0, calls, max_schedules=5000, dedupe=False):
     """calls: [(fname, args)] one per thread. Yields (final_state, schedule, rets, outcome) for every complete schedule/path.
     schedule = list of thread ids, one entry per executed segment."""
     n = len(calls)
@@ -13,26 +35,31 @@ def interleavings(ex, st0, calls, max_schedules=5000):
     stacks = []
     for fname, args in calls:
         tmp = st0.clone(); ex.start(tmp, fname, args); stacks.append(tmp.stack)
-    work = [(init, stacks, [None] * n, [False] * n, [])]
-    out = []; count = 0
+    work = [(init, stacks, [None] * n, [False] * n, [], (False,) * n)]
+    out = []; count = 0; seen = set()
     while work:
-        st, stks, rets, done, sched = work.pop()
+        st, stks, rets, done, sched, ay = work.pop()
+        if dedupe:
+            k = (state_key(st, stks, rets, done), ay)
+            if k in seen:
+                out.append((st, sched, rets, 'pruned')); continue      # same global state already explored: only the obligations recorded so far remain to be decided
+            seen.add(k)
         if all(done):
             out.append((st, sched, rets, 'return')); continue
         for t in range(n):
             if done[t]: continue
             s2 = st.clone(); s2.stack = [f.clone() for f in stks[t]]
-            for r in ex.resume(s2):
+            for r in ex.resume(s2, at_yield=ay[t]):
                 count += 1
                 if count > max_schedules: raise llsym.Unsupported('schedule budget exceeded')
                 if r.kind == 'yield':
                     ns = list(stks); ns[t] = r.state.stack
                     nst = r.state; 
-                    work.append((nst, ns, list(rets), list(done), sched + [t]))
+                    work.append((nst, ns, list(rets), list(done), sched + [t], ay[:t] + (True,) + ay[t + 1:]))
                 elif r.kind == 'return':
                     nr = list(rets); nr[t] = r.value; nd = list(done); nd[t] = True
                     ns = list(stks); ns[t] = []
-                    work.append((r.state, ns, nr, nd, sched + [t]))
+                    work.append((r.state, ns, nr, nd, sched + [t], ay[:t] + (False,) + ay[t + 1:]))
                 elif r.kind == 'infeasible':
                     continue
                 else:
